@@ -181,20 +181,30 @@ func doPayouts(n int) {
 			}
 			return reqs[a].idx < reqs[b].idx
 		})
-		for j, r := range reqs {
-			if j > 0 {
-				sb.WriteString("; ")
-			}
+		// the payouts Go returned, sorted by txid: a request without a payout entry is left out (the
+		// model then disagrees on the list), a payout for an unknown txid is printed with index -1
+		first := true
+		known := map[string]bool{}
+		for _, r := range reqs {
+			known[r.txid] = true
 			p, ok := pay[r.txid]
 			if !ok {
-				fmt.Fprintf(os.Stderr, "payout missing for %s\n", r.txid)
-				os.Exit(3)
+				continue
 			}
+			if !first {
+				sb.WriteString("; ")
+			}
+			first = false
 			fmt.Fprintf(&sb, "((%s, %d), %d)", r.hash, r.idx, p)
 		}
-		if len(pay) != len(reqs) {
-			fmt.Fprintf(os.Stderr, "payout count mismatch\n")
-			os.Exit(3)
+		for k, p := range pay {
+			if !known[k] {
+				if !first {
+					sb.WriteString("; ")
+				}
+				first = false
+				fmt.Fprintf(&sb, "((0, (-1)), %d)", p)
+			}
 		}
 		fmt.Fprintf(&sb, "], %d)", set.TotalRequested())
 		fmt.Println(sb.String())
